@@ -247,6 +247,10 @@ def run_shard(spec):
     for j, (tag, tsrc, targs) in enumerate(tight):
         if j % 16 == spec['seed'] % 16:
             progs.append((None, targs, tsrc))
+    # entry points with 4-40 parameters (the entry frame grows with the argument count): monotone up to the largest stack the compiler accepts
+    for k, tag, eprog, eargs in common.scale_items(('entry',)):
+        if k % 16 == spec['seed'] % 16:
+            progs.append((None, eargs[0], A.render(eprog)))
     if spec['seed'] % 4 == 0:
         from .c17 import CALLER_PROG
         for n in ('12345', '-32768', '999'):
